@@ -25,13 +25,14 @@ one_neutral() {
     PYSPIKE_EVIDENCE_DIR=$BASE/ev.$id /verif/bin/check $p --repo "$wt" >$BASE/$id.$p.log 2>&1; rc=$?
     [ $rc -ne 0 ] && bad="$bad $p:$rc"
   done
-  if [ -z "$bad" ]; then echo "NEUTRAL $id silent"; else echo "NEUTRAL $id FLAGGED$bad"; fi
+  exp=$(/venv/bin/python -c "import json;print(json.load(open('/verif/neutral/STATUS.json'))['expected'].get('$id','silent')[:18])")
+  if [ -z "$bad" ]; then echo "NEUTRAL $id silent"; elif [ "$exp" = "known-false-alarm:" ]; then echo "NEUTRAL $id flagged (listed in neutral/STATUS.json as a known false alarm):$bad"; else echo "NEUTRAL $id FLAGGED$bad"; fi
   git -C /repo worktree remove --force "$wt" >/dev/null 2>&1
 }
 export -f one_seed one_neutral
 {
   if [ "$MODE" != neutral ]; then for d in /verif/seeded/*/; do echo "one_seed $(basename $d) $BASE"; done; fi
-  if [ "$MODE" != seeded ]; then for d in /verif/neutral/*/; do echo "one_neutral $(basename $d) $BASE"; done; fi
+  if [ "$MODE" != seeded ]; then for d in /verif/neutral/[A-Z][0-9]*/; do echo "one_neutral $(basename $d) $BASE"; done; fi
 } | xargs -P 16 -I{} bash -c '{}' | sort
 git -C /repo worktree prune
 if [ "${KEEP_LOGS:-0}" = 1 ]; then echo "logs in $BASE"; else rm -rf "$BASE"; fi
